@@ -32,12 +32,75 @@ def k_lin_specs():
     return S
 
 
+MODEL = ('Kani-only contract model of the Montgomery kernels: encode (x*R^2) and decode (x*1) are mutually inverse bijections '
+         'of [0,p) fixing 0, encode reduces a 256-bit value mod p first, other products are arbitrary canonical values that are '
+         'zero iff a factor is zero (justified by engine L: L-enc, L-dec, L-mul range; field has no zero divisors)')
+DIVC = 'U512::divrem replaced by "remainder is an arbitrary value below the modulus" (contract decided by engine L, L-divrem)'
+
+
+def k_conv_specs():
+    S = []
+    bl = 'byte strings of EVERY length 0..=70 (length symbolic) with arbitrary content; unwind 72'
+    S.append(K('conv::k_bytes_u256_from_slice', 'U256::from_slice: Ok exactly for 32 bytes, big-endian limb order', ['U256::from_slice'], 'lengths 0..=40 symbolic; unwind 34'))
+    S.append(K('conv::k_bytes_u256_to_big_endian', 'U256::to_big_endian: wrong buffer size is Err (no panic); 32 bytes big-endian', ['U256::to_big_endian'], 'buffer lengths 0..=40 symbolic'))
+    S.append(K('conv::k_bytes_u512_from_slice', 'U512::from_slice: Ok exactly for 64 bytes, big-endian limb order', ['U512::from_slice'], 'lengths 0..=70 symbolic'))
+    for f in ('fq', 'fr'):
+        T = f.capitalize()
+        S.append(K('conv::k_conv_from_slice_%s' % f, T + '::from_slice: Some exactly for lengths 1..=64; result canonical; <=32 bytes: encode(big-endian value mod p); 33..=64: encode(remainder of the left-padded 512-bit value by p)',
+                   ['sm9_core::%s::from_slice' % T, 'fields::%s::from_slice/new/new_mul_factor/interpret' % T, 'U512::interpret'], bl, [MODEL, DIVC]))
+        S.append(K('conv::k_conv_roundtrip_%s' % f, T + ': to_slice is below p; from_slice(to_slice(x)) == x; to_slice(from_slice(b)) == b for b<p; is_zero exactly for 0',
+                   ['to_slice', 'from_slice', 'is_zero'], 'all canonical x, all 32-byte b<p', [MODEL]))
+        S.append(K('conv::k_conv_interpret_%s' % f, T + '::interpret(64 bytes) = encode(big-endian value mod p), canonical', ['%s::interpret' % T], 'all 64-byte strings', [MODEL, DIVC]))
+        S.append(K('conv::k_conv_from_str_%s' % f, T + '::from_str: Some exactly for ASCII-digit strings; Horner step res*10+d per character', ['%s::from_str' % T], 'all valid UTF-8 strings of <= 2 bytes (quick; 3 bytes in the thorough tier; longer strings repeat the same step)', [MODEL]))
+        S.append(K('conv::k_cmp_eq_%s' % f, T + ' == is limb equality of canonical representations; U256 ordering numeric', ['PartialEq', 'U256 Ord'], 'all pairs below p'))
+        S.append(K('conv::k_random_canonical_%s' % f, T + '::random is fully reduced for EVERY RNG output stream', ['%s::random' % T, 'U256::random', 'U512::random'], 'RNG = arbitrary symbolic stream', [DIVC]))
+    S.append(K('conv::k_conv_to_big_endian_fq', 'Fq::to_big_endian: Err on wrong buffer size (no panic); agrees with to_slice; is_even = parity of canonical value', ['Fq::to_big_endian', 'Fq::is_even'], 'buffer lengths 0..=40', [MODEL]))
+    S.append(K('conv::k_conv_from_hash', 'Fr::from_hash: None exactly beyond 64 bytes; = encode(int(h) mod (canonical value of -1)) + 1', ['Fr::from_hash'], bl, [MODEL, DIVC]))
+    S.append(K('conv::k_setbit_u256', 'U256::set_bit sets exactly bit n for n<256, returns false beyond', ['U256::set_bit', 'U256::get_bit'], 'all limbs, n in 0..=300'))
+    S.append(K('conv::k_setbit_fr_canonical', 'Fr::set_bit from any canonical state leaves a canonical state', ['Fr::set_bit'], 'all canonical x, bit index 0..=300, both values', [MODEL]))
+    S.append(K('conv::k_setbit_fr_value', 'Fr::set_bit(i,v) sets bit i of the canonical value (reducing mod r)', ['Fr::set_bit'], 'all canonical x, bit index 0..=300, both values', [MODEL]))
+    S.append(K('conv::k_cmp_eq_fq2', 'Fq2 == is component-wise limb equality; is_zero; real/imaginary accessors', ['Fq2 PartialEq'], 'all pairs'))
+    S.append(K('conv::k_conv_fq2_from_slice_len', 'Fq2::from_slice rejects (no panic) every length 0..=70 but 64', ['Fq2::from_slice'], 'lengths 0..=70 symbolic', [MODEL]))
+    S.append(K('conv::k_conv_fq2_from_slice', 'Fq2::from_slice: Some exactly for 64 bytes with both coordinates below q (never a panic); imaginary part first; to_slice round trip; parity of the real part',
+               ['sm9_core::Fq2::from_slice', 'fields::Fq2::from_slice/to_slice'], 'all 64-byte strings', [MODEL]))
+    return S
+
+
+def k_dec_specs():
+    S = []
+    for g in ('g1', 'g2'):
+        for k in ('raw', 'uncompressed', 'compressed'):
+            S.append(K('dec::k_dec_%s_%s' % (g, k), '%s %s decoder on EVERY string of the exact length: no panic; Ok => exact prefix and every coordinate < q; re-encoding gives back the input; Err only if malformed or sqrt/validated-constructor refused; every accepted point went through AffineG::new' % (g.upper(), k),
+                       ['sm9_core::%s::from_%s' % (g.upper(), {'raw': 'slice', 'uncompressed': 'uncompressed', 'compressed': 'compressed'}[k]), 'to_slice/to_uncompressed/to_compressed', 'Fq::from_slice', 'Fq2::from_slice'],
+                       'all byte strings of the exact format length (arbitrary prefix and coordinates)', [MODEL, 'Fq::sqrt / Fq2::sqrt replaced by "None, or Some(arbitrary canonical value)"; AffineG::new replaced by "Err, or Ok carrying exactly the given coordinates (y != 0)" - their own behaviour is decided by engine A']))
+            S.append(K('dec::k_declen_%s_%s' % (g, k), '%s %s decoder returns Err (no panic) for every other length 0..=140' % (g.upper(), k), ['decoder length checks'],
+                       'all strings of every length 0..=140 except the format length (length symbolic)', [MODEL]))
+    S.append(K('dec::k_enc_g1', 'G1 encoders: raw = x||y big-endian; 0x04 prefix; compressed prefix 0x02/0x03 = parity of canonical y', ['G1::to_slice/to_uncompressed/to_compressed'], 'all canonical coordinate pairs (z = 1)', [MODEL]))
+    S.append(K('dec::k_enc_g2', 'G2 encoders: imaginary before real, x before y; compressed prefix = parity of the real part of y', ['G2::to_slice/to_uncompressed/to_compressed', 'Fq2::to_slice'], 'all canonical coordinates (z = 1)', [MODEL]))
+    return S
+
+
+def k_gt_specs():
+    return [K('dec::k_gt_bytes', 'Gt::to_slice: 384 bytes = twelve canonical coefficients, highest first', ['Gt::to_slice', 'Fq12/Fq4/Fq2::to_slice'], 'all twelve coefficients below q', ['layout-only model: decode is the identity on canonical values (byte placement cannot depend on which bijection decode is)']),
+            K('dec::k_gt_eq', 'Gt == is equality of all twelve canonical coefficients', ['Gt PartialEq'], 'all pairs')]
+
+
 def run_c06(tier):
     obls = kani.decide('C06', k_lin_specs(), tier)
     return obls
 
 
+def run_c13(tier):
+    return kani.decide('C13', k_conv_specs(), tier, pool=8)
+
+
+def run_c08(tier):
+    return kani.decide('C08', k_dec_specs(), tier, timeout_s=2400, pool=6)
+
+
 PROPS = {
+    'C13': dict(run=run_c13, level='proof', trusted_base=KTRUST, not_covered=['from_str beyond 3-byte strings (same Horner step repeated)'], explanation=''),
+    'C08': dict(run=run_c08, level='proof', trusted_base=KTRUST, not_covered=['completeness for G2 needs Fq2::sqrt completeness (C14) and the subgroup theorem'], explanation=''),
     'C06': dict(run=run_c06, level='proof', trusted_base=KTRUST,
                 not_covered=['value of inverse on non-zero inputs', 'pow for symbolic exponents', 'mul/square kernels (engine L, pending)'],
                 explanation='bounded solver-decided obligations over the real code; see obligation_list'),
